@@ -104,7 +104,7 @@ func (rn *Runner) reopen(s envSpec) bool {
 
 // advance lets the network make some progress so that the victim moves through steps and heights.
 func (rn *Runner) advance(r *rand.Rand, steps int) {
-	if rn.e.Mode != "caughtup" {
+	if rn.e.Mode != "caughtup" || rn.broken {
 		return
 	}
 	for i := 0; i < steps && !rn.e.V.Dead; i++ {
